@@ -10,7 +10,7 @@
    component of ReVM.rec) is not observed by the theorems below. *)
 From Coq Require Import List ZArith NArith Bool Lia.
 From NV Require Import Bytes GenConsts ReSyntax ReParse ReVM CLite CLiteProps GenCFuncs CLiteTac TrRegex TrRegexAtom TrRegexBrk.
-From NV Require ReProps8 ReProps11.
+From NV Require ReEmit ReProps5 ReProps8 ReProps11.
 Import ListNotations.
 Local Open Scope Z_scope.
 
@@ -974,3 +974,242 @@ Proof.
   rewrite Hm3. rewrite (psub_of_agree (snd r) M' (Z.to_nat nsub) Hagr). reflexivity.
 Qed.
 Print Assumptions tr_re_recmatch.
+
+(* ------------------------------------------------------------------ regexec: the start-position loop *)
+Definition rx_loop : stmt :=
+  match fn_body cf_regexec with SSeq _ (SSeq _ (SSeq _ (SSeq _ (SSeq _ (SSeq _ (SSeq w _)))))) => w | _ => SSkip end.
+Definition rx_tail : stmt :=
+  match fn_body cf_regexec with SSeq _ (SSeq _ (SSeq _ (SSeq _ (SSeq _ (SSeq _ (SSeq _ t)))))) => t | _ => SSkip end.
+
+(* what regexec leaves in memory: its local state block (dead afterwards), the states saved by the forks, and on a match
+   the caller's psub[] *)
+Definition rx_post (br bps : nat) (pcells : block) (ns : nat) (m : mem) (x : option st) (m' : mem) : Prop :=
+  exists blk extra, match x with
+                    | Some r => m' = upd (upd m br blk ++ extra) bps (tab_block (psub_of (snd r) ns) ++ skipn (2 * ns) pcells)
+                    | None => m' = upd m br blk ++ extra
+                    end.
+
+Lemma rx_post_shift br bps pcells ns (m : mem) (A : block) (E : list block) x m' : (br < length m)%nat ->
+  rx_post br bps pcells ns (upd m br A ++ E) x m' -> rx_post br bps pcells ns m x m'.
+Proof.
+  intros Hb [blk [extra Hx]]. exists blk, (E ++ extra).
+  assert (Eq : upd (upd m br A ++ E) br blk ++ extra = upd m br blk ++ E ++ extra).
+  { rewrite upd_app_mem by (rewrite upd_length; exact Hb). rewrite upd_upd by exact Hb. rewrite <- app_assoc. reflexivity. }
+  destruct x; rewrite Eq in Hx; exact Hx.
+Qed.
+
+Section Regexec.
+  Variables (bre bp br bl bps bpreg : nat) (P : list instr) (cflg flg : Z) (line : bytes) (fuel : nat).
+  Hypothesis H1 : br <> bre.
+  Hypothesis H2 : br <> bp.
+  Hypothesis H3 : br <> bl.
+  Hypothesis H4 : (length cglobals <= br)%nat.
+  Hypothesis H5 : bytes_lt256 line.
+  Hypothesis H6 : -2147483648 <= flg <= 2147483647.
+  Hypothesis H7 : (length line + 2 <= fuel)%nat.
+  Hypothesis H8 : (cls_fuel <= fuel)%nat.
+  Hypothesis H9 : Z.of_nat (length line) < 2147483647.
+  Hypothesis H10 : Z.of_nat (length P) < 2147483647.
+  Hypothesis H11 : prog_closed P.
+  Hypothesis H12 : (length P < fuel)%nat.
+  Hypothesis Hbps : bps <> br.
+  Hypothesis HP0 : (0 < length P)%nat.
+  Hypothesis H128 : (128 < fuel)%nat.
+  Variables (nsub eflg : Z) (pcells : block) (e : nat).
+  Let nsub' := if negb (Z.land eflg 2 =? 0) then 0 else nsub.
+  Hypothesis Hn0 : 0 <= nsub.
+  Hypothesis Hn2 : nsub * 2 <= 2147483647.
+  Hypothesis Hpc : (2 * Z.to_nat nsub <= length pcells)%nat.
+  Hypothesis Hnf : (Z.to_nat nsub < fuel)%nat.
+  Hypothesis Heflg : -2147483648 <= eflg <= 2147483647.
+  Notation cd := (S (S (S (S (S (S (S (S (256 + e))))))))).
+  Notation call := (callf cprog fuel cd).
+  Notation frame := (frame bre bp br bl P cflg line fuel).
+
+  Lemma rx_loop_ok fuel2 : forall k m o s c0 marks pc dep lf x c,
+    frame m -> nth_error m br = Some (c0 :: tl (rs_cells bl 0 marks pc flg dep)) -> length marks = 128%nat ->
+    nth_error m bps = Some pcells -> (o <= length line)%nat -> (s <= length line)%nat ->
+    re_loop 256 P flg line k o s = (ReSyntax.Ok x, c) -> (k <= lf)%nat ->
+    exists st', match exec call lf rx_loop (mkst [VPtr bpreg 0; VPtr bl (Z.of_nat s); VInt nsub; VPtr bps 0; VInt eflg; VPtr bre 0; VPtr br 0; VPtr bl (Z.of_nat o)] m) with
+                | ONormal st1 => exec call fuel2 rx_tail st1
+                | oc => oc
+                end = OReturn (VInt (match x with Some _ => 0 | None => 1 end)) st' /\
+                rx_post br bps pcells (Z.to_nat nsub') m x (memm st').
+  Proof.
+    induction k as [|k IH]; intros m o s c0 marks pc dep lf x c F Hm Hlen Hps Ho Hs Hl Hlf; [discriminate|].
+    destruct lf as [|lf]; [lia|]. cbn [re_loop] in Hl.
+    pose proof F as [_ [Fl [_ Hb]]].
+    rewrite (rdk_in _ line o Ho) in Hl. rewrite (rdk_in _ line s Hs) in Hl.
+    unfold rx_loop, rx_tail; cbn [fn_body cf_regexec]. rewrite exec_while. xstep.
+    rewrite (load_str m bl line _ o Fl eq_refl Ho). xstep. rewrite (cc_z0 _ (nthb_lt256 line o H5)).
+    destruct (nthb line o =? 0)%N eqn:E0; cbn [negb].
+    { injection Hl as <- _. xstep. eexists. split; [reflexivity|]. cbn [memm]. exists (c0 :: tl (rs_cells bl 0 marks pc flg dep)), [].
+      rewrite app_nil_r. symmetry. apply upd_self. exact Hm. }
+    xstep.
+    rewrite (store_ok m br _ 0 _ Hm) by (cbn [length]; lia).
+    change (upd (c0 :: tl (rs_cells bl 0 marks pc flg dep)) (Z.to_nat 0) (VPtr bl (Z.of_nat s))) with (rs_cells bl s marks pc flg dep).
+    xstep.
+    set (m1 := upd m br (rs_cells bl s marks pc flg dep)).
+    assert (F1 : frame m1) by (apply frame_upd; assumption || lia).
+    assert (Hm1 : nth_error m1 br = Some (rs_cells bl s marks pc flg dep)) by (apply mem_upd_same; exact Hb).
+    pose proof F1 as [_ [Fl1 _]].
+    rewrite (tr_re_uc_len m1 bl line s _ fuel Fl1 H5 Hs ltac:(lia)). xstep.
+    replace (Z.of_nat s + 1 * Z.of_nat (re_uclen_at line s)) with (Z.of_nat (s + re_uclen_at line s)) by lia.
+    match goal with |- context [if negb (Z.land eflg 2 =? 0) then Ok (VInt 0, ?st) else Ok (VInt nsub, ?st)] =>
+      replace (if negb (Z.land eflg 2 =? 0) then Ok (VInt 0, st) else Ok (VInt nsub, st)) with (@Ok (val * state) (VInt nsub', st))
+        by (unfold nsub'; destruct (negb _); reflexivity) end.
+    xstep.
+    assert (Hn' : 0 <= nsub' /\ nsub' * 2 <= 2147483647 /\ (2 * Z.to_nat nsub' <= length pcells)%nat /\ (Z.to_nat nsub' < fuel)%nat).
+    { unfold nsub'. destruct (negb _); repeat split; try lia; assumption. }
+    destruct Hn' as [Hn0' [Hn2' [Hpc' Hnf']]].
+    assert (Hps1 : nth_error m1 bps = Some pcells) by (unfold m1; rewrite mem_upd_other; [exact Hps|exact Hb|exact Hbps]).
+    destruct (ReVM.re_recmatch 256 P flg line s) as [o1 c1] eqn:Hrm.
+    assert (Hok1 : out_ok o1) by (destruct o1; try exact I; discriminate).
+    destruct (tr_re_recmatch bre bp br bl bps P cflg flg line fuel H1 H2 H3 H4 H5 H6 ltac:(lia) H8 H9 H10 H11 H12 Hbps HP0 H128
+                m1 s marks pc dep nsub' pcells e o1 c1 F1 Hm1 Hlen Hs Hps1 Hn0' Hn2' Hpc' Hnf' Hrm Hok1)
+      as [m2 [Hcall [extra [p' [M' [pc' [dep' [HlM Hfin]]]]]]]].
+    rewrite Hcall. xstep.
+    destruct o1 as [cs r| | |w]; cbn [ret_of] in *; try discriminate; xstep.
+    - injection Hl as <- _. destruct Hfin as [-> [Hag ->]]. eexists. split; [reflexivity|]. cbn [memm].
+      apply (rx_post_shift br bps pcells _ m (rs_cells bl s marks pc flg dep) [] _ _ Hb). rewrite app_nil_r.
+      eexists _, extra. reflexivity.
+    - destruct (re_loop 256 P flg line k s (s + re_uclen_at line s)) as [x2 c2] eqn:Hl2. injection Hl as -> _.
+      pose proof (re_uclen_at_in line s Hs) as Hs'.
+      assert (Hb1 : (br < length m1)%nat) by (unfold m1; rewrite upd_length; exact Hb).
+      assert (Hbb1 : (bps < length m1)%nat) by (apply nth_error_Some; congruence).
+      assert (F2 : frame m2) by (rewrite Hfin; apply frame_app; try assumption; try lia; apply frame_upd; assumption || lia).
+      assert (Hm2 : nth_error m2 br = Some (VPtr bl (Z.of_nat p') :: tl (rs_cells bl 0 M' pc' flg dep'))).
+      { rewrite Hfin. rewrite nth_error_app1 by (rewrite upd_length; exact Hb1). apply mem_upd_same. exact Hb1. }
+      assert (Hps2 : nth_error m2 bps = Some pcells).
+      { rewrite Hfin. rewrite nth_error_app1 by (rewrite upd_length; [exact Hbb1|exact Hb1]).
+        rewrite mem_upd_other; [exact Hps1|exact Hb1|exact Hbps]. }
+      destruct (IH m2 s (s + re_uclen_at line s)%nat _ M' pc' dep' lf x c2 F2 Hm2 HlM Hps2 Hs Hs' Hl2 ltac:(lia)) as [st' [X Y]].
+      unfold rx_loop, rx_tail in X; cbn [fn_body cf_regexec] in X.
+      exists st'. split; [exact X|]. rewrite Hfin in Y.
+      apply (rx_post_shift br bps pcells _ m (rs_cells bl s marks pc flg dep) [] _ _ Hb). rewrite app_nil_r.
+      exact (rx_post_shift br bps pcells _ m1 _ extra _ _ Hb1 Y).
+  Qed.
+End Regexec.
+
+Lemma globals_len (m : mem) : globals_at m -> (length cglobals <= length m)%nat.
+Proof.
+  intro Hg. destruct (Nat.le_gt_cases (length cglobals) (length m)) as [L|L]; [exact L|exfalso].
+  destruct (nth_error cglobals (length m)) as [blk|] eqn:E; [|apply nth_error_None in E; lia].
+  pose proof (Hg _ _ E) as X. assert (length m < length m)%nat by (apply nth_error_Some; congruence). lia.
+Qed.
+Lemma frame_fresh bre bp bl P cflg line fuel (m : mem) (B : block) :
+  prog_at m (length m) fuel bre bp P cflg -> str_at m bl line -> globals_at m ->
+  frame bre bp (length m) bl P cflg line fuel (m ++ [B]).
+Proof.
+  intros [cells [Hre [Hp Hi]]] Hl Hg.
+  assert (Hx : forall b (blk : block), nth_error m b = Some blk -> nth_error (m ++ [B]) b = Some blk).
+  { intros b blk Hn. rewrite nth_error_app1; [exact Hn|]. apply nth_error_Some. congruence. }
+  split; [|split; [|split]].
+  - exists cells. split; [apply Hx; exact Hre|]. split; [apply Hx; exact Hp|].
+    intros k i Hk. specialize (Hi k i Hk). destruct Hi as [A1 A2]. split; [exact A1|].
+    destruct i as [a| | | |]; try exact A2. destruct A2 as [A2 A3]. split; [exact A2|].
+    destruct (ra_str a) as [s|]; [|exact I]. destruct A3 as [bs [E1 [E2 E3]]]. exists bs. split; [exact E1|]. split; [apply Hx; exact E2|exact E3].
+  - apply Hx. exact Hl.
+  - intros g blk Hn. apply Hx. apply Hg. exact Hn.
+  - rewrite app_length. cbn [length]. lia.
+Qed.
+
+Theorem tr_regexec bre bp bl bps bpreg P cflg eflg line fuel (m : mem) nsub pcells e x c :
+  let flg := Z.lor cflg eflg in
+  let ns := Z.to_nat (if negb (Z.land eflg 2 =? 0) then 0 else nsub) in
+  nth_error m bpreg = Some [VPtr bre 0] ->
+  prog_at m (length m) fuel bre bp P cflg -> str_at m bl line -> globals_at m -> nth_error m bps = Some pcells ->
+  bytes_lt256 line -> -2147483648 <= flg <= 2147483647 -> -2147483648 <= cflg <= 2147483647 -> -2147483648 <= eflg <= 2147483647 ->
+  (length line + 2 <= fuel)%nat -> (cls_fuel <= fuel)%nat -> Z.of_nat (length line) < 2147483647 -> Z.of_nat (length P) < 2147483647 ->
+  prog_closed P -> (length P < fuel)%nat -> (0 < length P)%nat -> (128 < fuel)%nat ->
+  0 <= nsub -> nsub * 2 <= 2147483647 -> (2 * Z.to_nat nsub <= length pcells)%nat -> (Z.to_nat nsub < fuel)%nat ->
+  re_loop 256 P flg line (length line + 2) 0 0 = (ReSyntax.Ok x, c) ->
+  exists m' blk extra,
+    callf cprog fuel (S (S (S (S (S (S (S (S (S (256 + e)))))))))) F_regexec [VPtr bpreg 0; VPtr bl 0; VInt nsub; VPtr bps 0; VInt eflg] m
+    = Ok (VInt (match x with Some _ => 0 | None => 1 end), m') /\
+    m' = match x with
+         | Some r => upd m bps (tab_block (psub_of (snd r) ns) ++ skipn (2 * ns) pcells) ++ blk :: extra
+         | None => m ++ blk :: extra
+         end.
+Proof.
+  intros flg ns Hpreg Hprog Hl Hg Hps H5 H6 Hcf Hef H7 H8 H9 H10 H11 H12 HP0 H128 Hn0 Hn2 Hpc Hnf Hloop.
+  set (br := length m).
+  assert (Lre : (bre < br)%nat) by (destruct Hprog as [cells [A _]]; apply nth_error_Some; congruence).
+  assert (Lbp : (bp < br)%nat) by (destruct Hprog as [cells [_ [A _]]]; apply nth_error_Some; congruence).
+  assert (Lbl : (bl < br)%nat) by (apply nth_error_Some; unfold str_at in Hl; congruence).
+  assert (Lbps : (bps < br)%nat) by (apply nth_error_Some; congruence).
+  pose proof (globals_len m Hg) as Lg.
+  enter F_regexec cf_regexec. xstep.
+  rewrite (load_cell m bpreg _ 0 _ Hpreg eq_refl ltac:(lia)). xstep.
+  rewrite (malloc_ok m 133) by lia. xstep.
+  change (chk U64 (544 * 133)) with (@Ok Z 72352). xstep.
+  change (if 544 =? 0 then Err EDivZero else chk U64 (72352 ÷ 544)) with (@Ok Z 133). xstep.
+  rewrite (memset_ok (m ++ [repeat VUndef (Z.to_nat 133)]) (length m) 0 0 133 (repeat VUndef (Z.to_nat 133)) (nth_error_app_new m _))
+    by (rewrite ?repeat_length; lia).
+  xstep. rewrite upd_app_new.
+  change (put_cells (repeat VUndef (Z.to_nat 133)) (Z.to_nat 0) (repeat (VInt (wrap U8 0)) (Z.to_nat 133))) with (repeat (VInt 0) 133).
+  (* rs.flg = re->flg | flg;  rs.o = s *)
+  destruct Hprog as [cells [Hre [Hbp Hinstr]]].
+  assert (Hre' : nth_error (m ++ [(repeat (VInt 0) 133 : block)]) bre = Some [VPtr bp 0; VInt (Z.of_nat (length P)); VInt cflg])
+    by (rewrite nth_error_app1 by exact Lre; exact Hre).
+  rewrite (load_cell _ bre _ (0 + 1 * 2) _ Hre' eq_refl ltac:(lia)). xstep.
+  rewrite (wrap_I32_id cflg Hcf). fold flg. rewrite (wrap_I32_id flg H6).
+  rewrite (store_ok _ (length m) (repeat (VInt 0) 133) (0 + 1 * 131) _ (nth_error_app_new m _)) by (rewrite repeat_length; lia).
+  xstep. rewrite upd_app_new.
+  rewrite (store_ok _ (length m) _ (0 + 1 * 1) _ (nth_error_app_new m _)) by (rewrite upd_length; rewrite repeat_length; lia).
+  xstep. rewrite upd_app_new.
+  change (upd (upd (repeat (VInt 0) 133) (Z.to_nat (0 + 1 * 131)) (VInt flg)) (Z.to_nat (0 + 1 * 1)) (VPtr bl 0))
+    with (VInt 0 :: tl (rs_cells bl 0 (repeat 0 128) 0 flg 0)).
+  set (B0 := VInt 0 :: tl (rs_cells bl 0 (repeat 0 128) 0 flg 0)).
+  assert (F0 : frame bre bp br bl P cflg line fuel (m ++ [B0])).
+  { apply frame_fresh; [|exact Hl|exact Hg]. exists cells. split; [exact Hre|]. split; [exact Hbp|exact Hinstr]. }
+  destruct (rx_loop_ok bre bp br bl bps bpreg P cflg flg line fuel ltac:(lia) ltac:(lia) ltac:(lia) Lg H5 H6 H7 H8 H9 H10 H11 H12 ltac:(lia) HP0 H128
+              nsub eflg pcells e Hn0 Hn2 Hpc Hnf fuel (length line + 2) (m ++ [B0]) 0%nat 0%nat (VInt 0) (repeat 0 128) 0 0 fuel x c
+              F0 (nth_error_app_new m B0) (repeat_length _ _) ltac:(rewrite nth_error_app1 by exact Lbps; exact Hps) ltac:(lia) ltac:(lia) Hloop H7)
+    as [st' [X Y]].
+  unfold rx_loop, rx_tail in X; cbn [fn_body cf_regexec] in X. change (Z.of_nat 0) with 0 in X.
+  match type of X with ?LX = _ =>
+    match goal with |- context [match ?LG with ONormal _ => _ | _ => _ end] => change LG with LX end end.
+  rewrite X.
+  destruct Y as [blk [extra Y]]. exists (memm st'), blk, extra. split; [reflexivity|].
+  fold ns in Y. unfold br in Y. rewrite upd_app_new in Y. destruct x as [r|].
+  - rewrite Y. rewrite <- app_assoc. cbn [app]. rewrite upd_app_mem by exact Lbps. reflexivity.
+  - rewrite Y. rewrite <- app_assoc. reflexivity.
+Qed.
+Print Assumptions tr_regexec.
+
+(* ------------------------------------------------------------------ the model's regexec; programs of regcomp *)
+Lemma prog_wf_closed P : ReProps5.prog_wf P -> prog_closed P /\ (0 < length P)%nat.
+Proof.
+  intros [_ [H0 H]]. split; [|exact H0]. intros pc Hpc. specialize (H pc Hpc). destruct (nth pc P IMatch); lia.
+Qed.
+
+(* regexec without REG_NOSUB: the value and the psub[] the model computes *)
+Corollary tr_regexec_model bre bp bl bps bpreg (p : ReEmit.prog) cflg eflg line fuel (m : mem) nsub pcells e res c :
+  let P := ReEmit.code p in
+  nth_error m bpreg = Some [VPtr bre 0] ->
+  prog_at m (length m) fuel bre bp P cflg -> str_at m bl line -> globals_at m -> nth_error m bps = Some pcells ->
+  bytes_lt256 line -> -2147483648 <= Z.lor cflg eflg <= 2147483647 -> -2147483648 <= cflg <= 2147483647 -> -2147483648 <= eflg <= 2147483647 ->
+  (length line + 2 <= fuel)%nat -> (cls_fuel <= fuel)%nat -> Z.of_nat (length line) < 2147483647 -> Z.of_nat (length P) < 2147483647 ->
+  ReProps5.prog_wf P -> (length P < fuel)%nat -> (128 < fuel)%nat ->
+  0 <= nsub -> nsub * 2 <= 2147483647 -> (2 * Z.to_nat nsub <= length pcells)%nat -> (Z.to_nat nsub < fuel)%nat ->
+  Z.land eflg 2 = 0 ->
+  regexec_d 256 p cflg line (Z.to_nat nsub) eflg = (ReSyntax.Ok res, c) ->
+  exists m' blk extra,
+    callf cprog fuel (S (S (S (S (S (S (S (S (S (256 + e)))))))))) F_regexec [VPtr bpreg 0; VPtr bl 0; VInt nsub; VPtr bps 0; VInt eflg] m
+    = Ok (VInt (match res with Some _ => 0 | None => 1 end), m') /\
+    m' = match res with
+         | Some subs => upd m bps (tab_block subs ++ skipn (2 * Z.to_nat nsub) pcells) ++ blk :: extra
+         | None => m ++ blk :: extra
+         end.
+Proof.
+  intros P Hpreg Hprog Hl Hg Hps H5 H6 Hcf Hef H7 H8 H9 H10 Hwf H12 H128 Hn0 Hn2 Hpc Hnf Hnosub Hr.
+  destruct (prog_wf_closed P Hwf) as [H11 HP0].
+  unfold regexec_d in Hr. fold P in Hr.
+  destruct (re_loop 256 P (Z.lor cflg eflg) line (length line + 2) 0 0) as [[x| |] c'] eqn:Hloop; try (destruct x; discriminate); try discriminate.
+  destruct (tr_regexec bre bp bl bps bpreg P cflg eflg line fuel m nsub pcells e x c' Hpreg Hprog Hl Hg Hps H5 H6 Hcf Hef H7 H8 H9 H10 H11 H12 HP0 H128
+              Hn0 Hn2 Hpc Hnf Hloop) as [m' [blk [extra [X Y]]]].
+  rewrite Hnosub in Y. cbn [Z.eqb negb] in Y.
+  exists m', blk, extra. destruct x as [r|]; injection Hr as <- _; split; assumption.
+Qed.
+Print Assumptions tr_regexec_model.
